@@ -10,11 +10,13 @@ GenNext == XNext /\ hist' = Append(hist, xobs')
 GenSpec == GenInit /\ [][GenNext]_<<xvars, hist>>
 PSkel(q) == [i \in DOMAIN q |-> <<IsReply(q[i].id), q[i].g, AllZero(q[i].id),
                                    IF IsReply(q[i].id) /\ ReplyId(q[i].id) \in LiveIds THEN wait[SlotOf(ReplyId(q[i].id))].w ELSE 0>>]
-Skel == <<tr, max, cid # 0, [r \in DOMAIN out |-> out[r].st], PSkel(net.AB), PSkel(net.BA), PSkel(held),
+Skel == <<tr, max, cid # 0, [r \in DOMAIN out |-> out[r].st], PSkel(net.AB), PSkel(net.BA), PSkel(held), Len(bq),
           [h \in 1..MaxH |-> handles[h] # <<>>], hg, cnt, reqs # <<>>>>
 Emit == PrintT(<<"BEHAV", ToJson(hist')>>)
 CMsgDom == {}
 CTextDom == {}
 CHretsBoth == {0, -3}
 CHretsFail == {-3}
+CRetsZero == {0}
+CRetsBoth == {0, -1}
 =============================================================================
